@@ -1241,7 +1241,7 @@ _BASIC_CONVERTERS: t.Dict[type, Converter[t.Any]] = {
     bool: ScalarConverter(bool, bool, 'a bool', 'bools', bool),
     str: ScalarConverter(str, str, 'a string', 'strings', str),
     bytes: ScalarConverter(bytes, (bytes, bytearray), 'a bytestring', 'bytestrings'),
-    bytearray: ScalarConverter(bytearray, (bytes, bytearray), 'a bytearray', 'bytearrays'),
+    bytearray: ScalarConverter(bytearray, (bytes, bytearray), 'a bytearray', 'bytearrays', bytes),
     type(None): NoneConverter(),
     datetime.datetime: DatetimeConverter(datetime.datetime),
     datetime.time: DatetimeConverter(datetime.time),
